@@ -84,7 +84,19 @@ fn check_combo(c: &Combo) -> Result<(), String> {
         Err(ZipError::UnsupportedArchive(m)) if m == ZipError::PASSWORD_REQUIRED => {}
         _ => return Err("by_name without a password does not give the password-required error".into()),
     }
-    if c.wrong != c.password {
+    // HMAC zero-pads keys up to its block size, so passwords that differ only in trailing NUL bytes
+    // derive the same keys: they are the same password as far as WinZip AES is concerned
+    let strip = |p: &[u8]| -> Vec<u8> {
+        if p.len() > 64 {
+            return p.to_vec();
+        }
+        let mut v = p.to_vec();
+        while v.last() == Some(&0) {
+            v.pop();
+        }
+        v
+    };
+    if strip(&c.wrong) != strip(&c.password) {
         match open_read(&b.bytes, k, &c.wrong, bufs)? {
             Out::Refused(_) => {}
             Out::Data(d) if d == plain && plain.is_empty() => {} // nothing to protect
